@@ -55,6 +55,8 @@ def escape_analysis(repo, model, pm, generic_action_exc=False):
 def run(repo, rep):
     from ..pitfalls import memo_rule as _memo_rule
     _memo_rule(repo, rep, 'C12', 'C12.Z1')
+    from ..pitfalls import log_rule as _log_rule
+    _log_rule(repo, rep, 'C12', 'C12.Z2')
     model = FsmModel(repo)
     pm = ProviderModel(repo, model)
     rep.rule('C12.E6', 'no function of the provider / state machine / codecs reads an ``except ... as name`` variable after its handler '
